@@ -84,7 +84,7 @@ func (h *RegisteredHook) Cancel() error {
 	verifEvent("hookcancel:locked", h)
 
 	for key, hook := range c.hooks {
-		if hook.q == h.q {
+		if hook == h {
 			c.hooks = append(c.hooks[:key], c.hooks[key+1:]...)
 			return nil
 		}
